@@ -294,7 +294,7 @@ def wall_clock(ctx, pool):
     for o in outs:
         if 'error' in o:
             raise tlc.TLCError('wall-clock run crashed: %s' % o['error'])
-        if o['signals'] and o['outcome'] == 'TIMEOUT' and o['signals_handled'] < 3:
+        if o['signals'] and o['outcome'] == 'TIMEOUT' and o['elapsed'] >= 0.5 and o['signals_handled'] < 3:
             raise tlc.TLCError('wall-clock run: the interval timer did not interrupt the wait (%s)' % o)
         case = {'wall_clock': True, 'transport': o['kind'], 'use_poll': o['use_poll'], 'T': o['T'], 'peer_talks_at': o['talk_at'],
                 'signals': o['signals']}
